@@ -39,7 +39,7 @@ pub fn check_all(d: &Digest) -> Vec<Violation> {
 }
 
 /// tags expected in an instance for a registration list (build-time + run-time additions)
-fn check_tags(
+pub fn check_tags(
     d: &Digest,
     inst: &Inst,
     actual: &[u32],
